@@ -49,27 +49,74 @@ static void on_apply(frg::string_view v, void *ctx) {
 	for(size_t i = 0; i < v.size(); i++) sink = sink + v[i];    // the target may read every byte of its view
 }
 
+// Options built by the real helpers of cmdline.hpp: each gets its own exact-size heap target with canaries around
+// the fields ("the callbacks write only through the option's target").
+struct Target {
+	uint64_t c0; bool b; uint64_t c1; frg::string_view v; uint64_t c2; int32_t i32; uint64_t c3; uint8_t u8; uint64_t c4;
+	int64_t i64; uint64_t c5; uint16_t u16; uint64_t c6;
+};
+static const uint64_t CAN = 0x5AFEC0DE5AFEC0DEull;
+static Target *new_target(const std::string &kind) {
+	Target *t = (Target *)::malloc(sizeof(Target));
+	t->c0 = t->c1 = t->c2 = t->c3 = t->c4 = t->c5 = t->c6 = CAN;
+	t->b = kind == "F"; new (&t->v) frg::string_view{}; t->i32 = 7; t->u8 = 7; t->i64 = 7; t->u16 = 7;
+	return t;
+}
+
 static void body(const vh::Lines &ls) {
 	drop_blocks();
 	std::vector<frg::option> opts;
 	std::vector<Ctx *> ctxs;
+	std::vector<std::pair<std::string, Target *>> targets;   // per option: kind ("" = custom callback), target
 	for(auto &l : ls) {
 		auto t = vh::split(l);
 		if(t[0] == "opt") {
 			Block nb = exact(unhex(t[1]));
 			Ctx *c = new Ctx{opts.size()}; ctxs.push_back(c);
 			opts.push_back(frg::option{frg::string_view{nb.p, nb.n}, frg::option::fn_type{on_apply, c, t[2] == "1"}});
+			targets.push_back({"", nullptr});
+		} else if(t[0] == "ropt") {
+			Block nb = exact(unhex(t[1]));
+			const std::string &k = t[2];
+			Target *tg = new_target(k);
+			frg::string_view name{nb.p, nb.n};
+			if(k == "T") opts.push_back(frg::option{name, frg::store_true(tg->b)});
+			else if(k == "F") opts.push_back(frg::option{name, frg::store_false(tg->b)});
+			else if(k == "V") opts.push_back(frg::option{name, frg::as_string_view(tg->v)});
+			else if(k == "i32") opts.push_back(frg::option{name, frg::as_number(tg->i32)});
+			else if(k == "u8") opts.push_back(frg::option{name, frg::as_number(tg->u8)});
+			else if(k == "u16") opts.push_back(frg::option{name, frg::as_number(tg->u16)});
+			else opts.push_back(frg::option{name, frg::as_number(tg->i64)});
+			targets.push_back({k, tg});
 		} else if(t[0] == "parse" || t[0] == "parsenull") {
 			g_null_cl = t[0] == "parsenull";
 			g_cl = exact(g_null_cl ? std::string() : unhex(t[1]));
 			fflush(stdout);
 			try {
 				frg::parse_arguments(g_null_cl ? frg::string_view{} : frg::string_view{g_cl.p, g_cl.n}, std::span<frg::option>(opts));
-			} catch(...) { for(auto c : ctxs) delete c; throw; }
+			} catch(...) { for(auto c : ctxs) delete c; for(auto &t : targets) ::free(t.second); throw; }
 			printf("ok\n");
+			for(size_t i = 0; i < targets.size(); i++) {
+				const std::string &k = targets[i].first; Target *tg = targets[i].second;
+				if(!tg) continue;
+				if(tg->c0 != CAN || tg->c1 != CAN || tg->c2 != CAN || tg->c3 != CAN || tg->c4 != CAN || tg->c5 != CAN || tg->c6 != CAN)
+					vh::oracle("oob", "option %zu (%s): a callback wrote outside its target field", i, k.c_str());
+				if(k == "T" || k == "F") printf("t %zu b %d\n", i, (int)tg->b);
+				else if(k == "V") {
+					if(!tg->v.data()) printf("t %zu v null\n", i);
+					else if(tg->v.data() < g_cl.p || tg->v.data() > g_cl.p + g_cl.n || tg->v.size() > (size_t)(g_cl.p + g_cl.n - tg->v.data())) {
+						vh::oracle("oob", "as_string_view target %zu holds a view outside the command line", i); printf("t %zu v outside\n", i); }
+					else printf("t %zu v %zu %zu\n", i, (size_t)(tg->v.data() - g_cl.p), tg->v.size());
+				}
+				else if(k == "i32") printf("t %zu n %lld\n", i, (long long)tg->i32);
+				else if(k == "u8") printf("t %zu n %lld\n", i, (long long)tg->u8);
+				else if(k == "u16") printf("t %zu n %lld\n", i, (long long)tg->u16);
+				else printf("t %zu n %lld\n", i, (long long)tg->i64);
+			}
 		}
 	}
 	for(auto c : ctxs) delete c;
+	for(auto &t : targets) ::free(t.second);
 }
 
 int main() { return vh::run(body); }
